@@ -49,8 +49,11 @@ func (x *Exec) loopCut(fr *Frame, st *State, h *ssa.BasicBlock, idx int, edges [
 		env := x.invEnv(fr, st)
 		x.bindRangeIdx(fr, h, env)
 		for _, inv := range spec.Invariants {
+			if inv.Dropped || inv.Proved {
+				continue
+			}
 			goal := x.evalBool(env, inv.Expr)
-			x.addObl(st, "inv-entry", fmt.Sprintf("%s/inv-entry:%s/%s", shortFn(x.top), loopName, inv.Label), goal, x.p.pos(blockPos(h)), inv.Text)
+			x.addObl(st, "inv-entry", fmt.Sprintf("%s/inv-entry:%s/%s%s", shortFn(x.top), loopName, candPrefix(inv), inv.Label), goal, x.p.pos(blockPos(h)), inv.Text)
 		}
 	}
 	// havoc
@@ -60,6 +63,9 @@ func (x *Exec) loopCut(fr *Frame, st *State, h *ssa.BasicBlock, idx int, edges [
 		env := x.invEnv(fr, st)
 		x.bindRangeIdx(fr, h, env)
 		for _, inv := range spec.Invariants {
+			if inv.Dropped {
+				continue
+			}
 			x.assume(st, x.evalBool(env, inv.Expr))
 		}
 		if spec.Decreases != nil && fr.depth == 0 {
@@ -70,6 +76,13 @@ func (x *Exec) loopCut(fr *Frame, st *State, h *ssa.BasicBlock, idx int, edges [
 			fr.lets[fmt.Sprintf("variant:%d", idx)] = specVal{term: x.vc.define("variant", "Int", v.term), typ: tInt}
 		}
 	}
+}
+
+func candPrefix(c *Clause) string {
+	if c.Candidate {
+		return "candidate:"
+	}
+	return ""
 }
 
 func (x *Exec) bindRangeIdx(fr *Frame, h *ssa.BasicBlock, env *SpecEnv) {
@@ -106,18 +119,101 @@ func loopMentionsVar(body map[*ssa.BasicBlock]bool, name string) bool {
 	return false
 }
 
+// hookKeysOfInstr adds the ghosts that the statement hooks of contract hc may assign when ins
+// executes; a call of a closure of the function under verification is followed into the
+// closure's body (with the closure's own hooks).
+func (x *Exec) hookKeysOfInstr(hc *FuncContract, ins ssa.Instruction, keys map[string]bool, depth int) {
+	addAll := func(effs []*EffectSpec) {
+		for _, ef := range effs {
+			keys["G|"+ef.Ghost] = true
+		}
+	}
+	switch t := ins.(type) {
+	case *ssa.MapUpdate:
+		if hc != nil {
+			if u, ok := t.Map.(*ssa.UnOp); ok && u.Op == token.MUL {
+				if fa, ok := u.X.(*ssa.FieldAddr); ok {
+					if stt, ok := deref(fa.X.Type()).Underlying().(*types.Struct); ok {
+						addAll(hc.OnCall["mapupdate:"+stt.Field(fa.Field).Name()])
+					}
+				}
+			}
+		}
+	case *ssa.Send:
+		if hc != nil {
+			addAll(hc.OnSend[chanVarName(t.Chan)])
+		}
+	case ssa.CallInstruction:
+		c := t.Common()
+		if hc != nil {
+			if _, isGo := ins.(*ssa.Go); isGo {
+				addAll(hc.OnGo)
+			}
+			m := hc.OnCall
+			if _, isDefer := ins.(*ssa.Defer); isDefer {
+				m = hc.OnDefer
+			}
+			addAll(m[calleeShortName(c)])
+			addAll(m[dynCallName(c)])
+			if n, _ := elemCallName(c); n != "" {
+				addAll(m[n])
+			}
+		}
+		// a closure of the function under verification
+		var cf *ssa.Function
+		if f := c.StaticCallee(); f != nil && f.Parent() != nil {
+			cf = f
+		} else if mc, ok := c.Value.(*ssa.MakeClosure); ok {
+			cf, _ = mc.Fn.(*ssa.Function)
+		} else if u, ok := c.Value.(*ssa.UnOp); ok && u.Op == token.MUL {
+			// f := func(){...}; f()  - the single closure stored into the local variable
+			if a, ok := u.X.(*ssa.Alloc); ok && a.Referrers() != nil {
+				for _, r := range *a.Referrers() {
+					if st, ok := r.(*ssa.Store); ok && st.Addr == ssa.Value(a) {
+						if mc, ok := st.Val.(*ssa.MakeClosure); ok {
+							cf, _ = mc.Fn.(*ssa.Function)
+						}
+					}
+				}
+			}
+		}
+		if cf != nil && depth < 4 && cf.Blocks != nil {
+			var chc *FuncContract
+			if fc, ok := x.db.Funcs[cf.String()]; ok {
+				chc = fc
+			}
+			for _, b := range cf.Blocks {
+				for _, i2 := range b.Instrs {
+					switch i2.(type) {
+					case *ssa.MapUpdate, *ssa.Send, ssa.CallInstruction:
+						x.hookKeysOfInstr(chc, i2, keys, depth+1)
+					case *ssa.UnOp, *ssa.Select:
+						if chc != nil {
+							for _, effs := range chc.OnRecv {
+								addAll(effs)
+							}
+						}
+					}
+				}
+			}
+		}
+	}
+}
+
 func (x *Exec) havocLoop(fr *Frame, st *State, h *ssa.BasicBlock, body map[*ssa.BasicBlock]bool) {
 	keys := map[string]bool{}
 	cells := map[*ssa.Alloc]bool{}
 	anyCall := false
 	addStmtGhosts := func() {
-		if c := fr.contract; c != nil && fr.depth == 0 {
+		if c := x.hookContract(fr); c != nil {
 			for _, ef := range c.OnGo {
 				keys["G|"+ef.Ghost] = true
 			}
-			for _, effs := range c.OnRecv {
-				for _, ef := range effs {
-					keys["G|"+ef.Ghost] = true
+			for _, m := range []map[string][]*EffectSpec{c.OnRecv, c.OnSend} {
+				for _, effs := range m {
+					for _, ef := range effs {
+						keys["G|"+ef.Ghost] = true
+					}
 				}
 			}
 		}
@@ -125,7 +221,7 @@ func (x *Exec) havocLoop(fr *Frame, st *State, h *ssa.BasicBlock, body map[*ssa.
 	for b := range body {
 		for _, ins := range b.Instrs {
 			switch t := ins.(type) {
-			case *ssa.Select:
+			case *ssa.Select, *ssa.Send:
 				addStmtGhosts()
 			case *ssa.UnOp:
 				if t.Op == token.ARROW {
@@ -141,6 +237,7 @@ func (x *Exec) havocLoop(fr *Frame, st *State, h *ssa.BasicBlock, body map[*ssa.
 				x.p.storeKeys(t.Addr, t.Val.Type(), keys)
 			case *ssa.MapUpdate:
 				keys[mapMemKey(t.Map.Type())] = true
+				x.hookKeysOfInstr(x.hookContract(fr), ins, keys, 0)
 			case *ssa.Defer:
 				x.unsupp("defer inside a loop in %s", shortFn(fr.fn))
 			case ssa.CallInstruction:
@@ -152,6 +249,9 @@ func (x *Exec) havocLoop(fr *Frame, st *State, h *ssa.BasicBlock, body map[*ssa.
 						keys["G|"+ef.Ghost] = true
 					}
 				}
+				// hooks named after calls through variables, elements and fields, and hooks of closures
+				// of this function that the call may run
+				x.hookKeysOfInstr(x.hookContract(fr), ins, keys, 0)
 				if _, isBuiltin := t.Common().Value.(*ssa.Builtin); !isBuiltin {
 					anyCall = true
 				}
@@ -284,8 +384,11 @@ func (x *Exec) loopBack(fr *Frame, st *State, from, h *ssa.BasicBlock, idx int) 
 	env := x.invEnv(fr, st)
 	x.bindRangeIdx(fr, h, env)
 	for _, inv := range spec.Invariants {
+		if inv.Dropped || inv.Proved {
+			continue
+		}
 		goal := x.evalBool(env, inv.Expr)
-		x.addObl(st, "inv-preserved", fmt.Sprintf("%s/inv-preserved:%s/%s", shortFn(x.top), loopName, inv.Label), goal, x.p.pos(from.Instrs[len(from.Instrs)-1].Pos()), inv.Text)
+		x.addObl(st, "inv-preserved", fmt.Sprintf("%s/inv-preserved:%s/%s%s", shortFn(x.top), loopName, candPrefix(inv), inv.Label), goal, x.p.pos(from.Instrs[len(from.Instrs)-1].Pos()), inv.Text)
 	}
 	if spec.Decreases != nil {
 		v := x.evalSpec(env, spec.Decreases.Expr)
